@@ -121,8 +121,7 @@ def uf_clauses(helper, cells, kind, args, out_cell, label):
             want = z3.fpIsNaN(out_cell)
         else:
             extra = (int(args.get("ddof") or 0),) if helper in ("std", "var") else ()
-            terms = list(part) + ([FP(args["q"])] if helper == "quantile" else [])
-            want = out_cell == symnp.uf(helper, terms, extra)
+            want = out_cell == symnp.uf_reducer(helper, list(part), extra, [FP(args["q"])] if helper == "quantile" else [])
         cl.append((f"{label}: {helper} of the {'non-missing ' if drop else ''}elements ({sum(pattern)} of {n})", z3.Implies(cond, want)))
     return cl
 
